@@ -22,7 +22,7 @@ shape("Background", description="any", steps="seq:ref:Step",
       _use_inheritance="bool")
 shape("Scenario", description="any", steps="seq:ref:Step", background="opt:ref:Background",
       feature="opt:ref:Feature", hook_failed="bool", _background_steps="opt:seq:ref:Step",
-      _use_background="bool", _row="opt:ref:Row", was_dry_run="bool")
+      _use_background="bool", _row="opt:ref:Row", was_dry_run="any")
 shape("ScenarioOutline", examples="seq:ref:Examples", _scenarios="seq:ref:Scenario")
 shape("Examples", tags="seq:str", table="opt:ref:Table", index="opt:int")
 shape("Step", step_type="str", text="any", table="opt:ref:Table", status="Status",
